@@ -29,7 +29,9 @@ RULE = (
     "non-zero exit and empty stdout. Decompile: stdout compiles as one module that assigns "
     "result0..result{k-1} exactly once each, in order; no variable (any assigned name other than the results) assigned for one pickle is "
     "assigned or read for another; executed over inert stubs each result_i canonicalises equal to "
-    "the reference VM's value for pickle i. Non-trivial = k >= 2 with an inner target, or a "
+    "the reference VM's value for pickle i. The emitted target is also loaded from a stream and by the "
+    "pure-Python unpickler; an injection the library itself refuses may fail, but then nothing may have been written. "
+    "Non-trivial = k >= 2 with an inner target, or a "
     "decompiled stack in which >= 2 pickles create variables; distinct = distinct (stack, options)."
 )
 ASSUMPTIONS = [
